@@ -25,6 +25,10 @@ def build(V, cfg):
     wn.add_valve('VT', 'J2', 'J3', 0.3, 'TCV', 0.0, 10.0)
     wn.add_pump('PP', 'R', 'J3', 'POWER', 3000.0)
     wn.add_pipe('P3', 'J3', 'T')
+    if cfg.get('head_pump', False):
+        # head pump whose curve points were given in no particular order (add_curve keeps the order it is given)
+        wn.add_curve('HC', 'HEAD', [(0.0, 40.0), (0.1, 10.0), (0.05, 30.0)])
+        wn.add_pump('PH', 'R', 'J1', 'HEAD', 'HC')
     if cfg.get('dead_end'):
         # a junction fed only from the tank: when the tank reaches its minimum level the simulator itself closes P4 and J4 is cut off
         wn.add_junction('J4', base_demand=0.01, elevation=0.0)
